@@ -158,6 +158,14 @@ theorem sky2pixY_eq (w0 w1 : ℝ) : Gen.C16.sky2pixY w0 w1 = w0 := by
 theorem sky2pixOrigin_eq : (Gen.C16.sky2pixOrigin : ℝ) = 1 := by
   try simp only [Gen.C16.sky2pixOrigin, C16Hand.sky2pixOrigin, R.real_ofNat, Nat.cast_one]
 
+/-- `pix2sky` and `sky2pix` reach the WCS only through astropy's `all_pix2world` / `all_world2pix`, i.e. the header's FULL
+    world coordinate system (core projection + SIP polynomial + look-up-table distortions), in every branch: the abstract
+    `Wcs` of the model is that full WCS in both directions.  (A `wcs_*` call anywhere in the method makes this 0.) -/
+theorem pix2skyEntryAll_eq : (Gen.C16.pix2skyEntryAll : ℝ) = 1 := by
+  try simp only [Gen.C16.pix2skyEntryAll, C16Hand.pix2skyEntryAll, R.real_ofNat, Nat.cast_one]
+theorem sky2pixEntryAll_eq : (Gen.C16.sky2pixEntryAll : ℝ) = 1 := by
+  try simp only [Gen.C16.sky2pixEntryAll, C16Hand.sky2pixEntryAll, R.real_ofNat, Nat.cast_one]
+
 /-- the offset points are `(x + r cos θ°, y + r sin θ°)`, and for the minor axis the same at `θ − 90°` with `sy` -/
 theorem p2sVecOffX_eq (x y r theta : ℝ) : Gen.C16.p2sVecOffX x y r theta = C16Hand.offX x r theta := by
   try simp only [Gen.C16.p2sVecOffX, C16Hand.p2sVecOffX, C16Hand.offX, R.real_cos, R.real_radians]
